@@ -1,7 +1,7 @@
 (* C16 -- correspondence entry points: the implementation's recorded traces
    are checked for membership in the specified set (trace_ok), and their stage
    word is compared with the model's. *)
-From PyGql Require Import Run.Driver Spec.TraceSpec Exec.TraceModel.
+From PyGql Require Import Run.Driver Spec.TraceSpec Exec.TraceModel Exec.RuntimeMachine Exec.TraceDeferred.
 
 (* what ApolloTracer.payload() exposes, as far as it depends on the hooks *)
 Record tracer_obs := mkTracer {
@@ -16,12 +16,17 @@ Record tracer_obs := mkTracer {
 Record run_obs := mkRun {
   r_trace : list event;
   r_has_data : bool;               (* response has non-null data *)
-  r_tracer : option tracer_obs
+  r_tracer : option tracer_obs;
+  r_sched : list tid               (* the completion order that was driven (deferred runtimes) *)
 }.
 
 Record req := mkReq {
   q_k : nat; q_n : nat; q_text : bool; q_class : oclass; q_mw_awaits : bool;
-  q_fields : list ftree
+  q_fields : list ftree;
+  q_prog : option prog;            (* the operation as a program of the C08/C09 executor machine
+                                      (deferred runtimes, no argument errors) *)
+  q_drop_invoke : bool             (* asyncio: the coroutine body starts before its completion;
+                                      compare without the Invoke events *)
 }.
 Definition case_C16 : Type := req * list run_obs.
 
@@ -46,6 +51,29 @@ Definition tracer_ok (q : req) (t : list event) (o : tracer_obs) : bool :=
   && Bool.eqb (tr_validation o) (reaches_validation (q_class q))
   && tr_end o.
 
+(* the executor machine (Exec/RuntimeMachine.v) run under the recorded schedule,
+   its log decorated with the field hooks (Exec/TraceDeferred.v), must predict
+   the implementation's hook / resolver events exactly *)
+Definition is_core (drop_inv : bool) (e : event) : bool :=
+  match e with
+  | FieldStart O _ | FieldEnd O _ | Return _ | Raise _ => true
+  | Invoke _ => negb drop_inv
+  | _ => false
+  end.
+Definition machine_ok (q : req) (r : run_obs) : bool :=
+  match q_prog q with
+  | None => true
+  | Some pr =>
+      match run (r_sched r) pr with
+      | Some st =>
+          (match pending (ms st) with [] => true | _ => false end)
+          && (if word_eq_dec (filter (is_core (q_drop_invoke q)) (r_trace r))
+                             (filter (is_core (q_drop_invoke q)) (decorate (recs_prog pr) (log (ms st))))
+              then true else false)
+      | None => false
+      end
+  end.
+
 Definition checks (q : req) (r : run_obs) : list bool :=
   let c := cfg_of q in
   [ trace_ok c (r_trace r);
@@ -56,9 +84,16 @@ Definition checks (q : req) (r : run_obs) : list bool :=
 Definition agree_C16 (c : case_C16) : bool :=
   forallb (fun r => forallb (fun b => b) (checks (fst c) r)) (snd c).
 
+(* Agreement of the executor machine + decoration with the implementation, run
+   by run. Exact equality with a model is stricter than the property (a
+   refactoring may move a hook within what trace_spec allows), so this is not
+   part of agree_C16: mismatches are reported in the evidence as
+   model disagreement / oracle freedom (DESIGN.md 4.5), not as violations. *)
+Definition machine_agree_C16 (c : case_C16) : bool := forallb (machine_ok (fst c)) (snd c).
+
 (* diagnostics: per run, which parts fail (1 stage word, 2 nesting in execution,
    3 unknown field path, 4 per-field word, 5 parent order, 6 stage word vs model,
-   7 data presence, 8 tracer) *)
+   7 data presence, 8 tracer, 9 executor machine + decoration under the same schedule) *)
 Local Open Scope N_scope.
 Definition diag_run (q : req) (r : run_obs) : list N :=
   let c := cfg_of q in let t := r_trace r in
@@ -69,5 +104,6 @@ Definition diag_run (q : req) (r : run_obs) : list N :=
   (if forallb (parent_okb t) (nodes_of c) then [] else [5]) ++
   (if word_eq_dec (filter is_stage t) (filter is_stage (model_C16 q)) then [] else [6]) ++
   (if Bool.eqb (r_has_data r) (is_exec (q_class q)) then [] else [7]) ++
-  (match r_tracer r with Some o => if tracer_ok q t o then [] else [8] | None => [] end).
+  (match r_tracer r with Some o => if tracer_ok q t o then [] else [8] | None => [] end) ++
+  (if machine_ok q r then [] else [9]).
 Definition diag_C16 (c : case_C16) : list (list N) := map (diag_run (fst c)) (snd c).
